@@ -423,7 +423,7 @@ def disk_faults(ctx, dcache, spy, built, spec, pool, cacheable, case):
 
 
 def run(ctx):
-    n = 150 if ctx.tier == "quick" else 900
+    n = 150 if ctx.tier == "quick" else 1500
     core.WARM_P = 0.0
     os.makedirs(os.path.join(core.VERIF, ".work"), exist_ok=True)
     if ctx.replay:
